@@ -146,6 +146,24 @@ def check(ctx) -> Result:
         res.add(bool(callee), "G3-probability-not-amplitude", f"{name}:amplitude source", b.site(), b.qualname, f"amplitudes come from {amp_src[name]}", f"{name} branch no longer takes its amplitudes from {amp_src[name]}", construct=name)
     # shortcut distributions are guarded by a photon count of the same space (rb_states B6)
     rb_states.run(ctx, res, only=["Backend.full_probability_distribution", "Sampler.probability_distribution", "pdist_calc"], rules={"B6-shortcut-guard-space", "B1-backend-arguments", "B1-loss-padding", "B1-marginalise-loss-modes"})
+    # every enumerated output contributes: the only output skipped by the permanent branch is the photon-less one
+    for lp in [l for l in ast.walk(ast.Module(body=branches["permanent"], type_ignores=[])) if isinstance(l, ast.For)]:
+        for st_ in ast.walk(lp):
+            if isinstance(st_, ast.If) and any(isinstance(x, ast.Continue) for x in st_.body):
+                t = src(st_.test).replace(" ", "")
+                okc = t.startswith("sum(") and "[:circuit.n_modes]" in t and t.endswith("==0")
+                res.add(okc, "G-enumeration-complete", f"permanent:{t[:40]}", b.site(st_), b.qualname, "only outputs without a photon on the circuit modes are skipped (their mass is the remainder)",
+                        f"outputs satisfying `{src(st_.test)[:80]}` are dropped from the enumeration: their probability is moved to the vacuum remainder instead of the pattern they belong to", construct=src(st_.test)[:120])
+    # SLOS normalisation: product of the factorials of *all* occupations
+    vf = ctx.func(SLOS, "vector_factorial")
+    comps = [c for c in walk_no_nested(vf.node) if isinstance(c, (ast.ListComp, ast.GeneratorExp))]
+    if len(comps) == 1 and "factorial" in src(comps[0].elt):
+        it = comps[0].generators[0].iter
+        pn = vf.params()[0]
+        res.add(isinstance(it, ast.Name) and it.id == pn and not comps[0].generators[0].ifs, "N-factorial-normalisation", "vector_factorial", vf.site(), vf.qualname, "one factorial per mode, every mode counted",
+                f"the factorial product runs over `{src(it)}` rather than over every occupation: equal occupations in different modes are counted once, so amplitudes of inputs like |2,2,0> are scaled", construct=src(comps[0]))
+    else:
+        res.frozen(False, "N-factorial-normalisation", "vector_factorial", vf.site(), vf.qualname, "", "factorial product idiom not recognised", construct="vector_factorial")
     # zero-photon input shortcut yields the circuit-mode vacuum with probability 1
     z = [n_ for n_ in walk_no_nested(b.node) if isinstance(n_, ast.If) and src(n_.test).replace(" ", "") == "input_state.n_photons==0"]
     okz = bool(z) and any(isinstance(s, ast.Assign) and src(s.value).replace(" ", "") in ("{State([0]*circuit.n_modes):1.0}", "{State([0]*circuit.n_modes):1}") for s in z[0].body)
